@@ -213,6 +213,24 @@ func cmdCheck(args []string) int {
 		runs = append(runs, r)
 	}
 	genSecs := time.Since(t0).Seconds() - loadSecs
+	// obligations listed as known findings are expected to fail: they get the first two solving
+	// stages (enough to notice that one has become provable) but no escalation
+	for _, f := range loadFindings(filepath.Join(*verif, "known_findings.txt")) {
+		if f.Kind != "finding" || f.Property != *prop {
+			continue
+		}
+		for _, q := range all {
+			n := q.Name
+			if q.Group == "safety" {
+				n = q.Unit + ".safety"
+			} else if q.Group == "nopanic" {
+				n = q.Unit + ".nopanic"
+			}
+			if n == f.Obligation {
+				q.Known = true
+			}
+		}
+	}
 	ts := time.Now()
 	results := solveAll(all, timeout, *par)
 	solveWall := time.Since(ts).Seconds()
